@@ -478,6 +478,7 @@ pub fn run_history_with(
         if dead && !matches!(op, Op::Commit | Op::Abort) {
             continue;
         }
+        *PROGRESS.lock().unwrap() = (hno as i64, k as i64, true);
         match op {
             Op::Commit | Op::Abort => {
                 let w = wtxn.take().unwrap();
